@@ -46,19 +46,54 @@ def cases(tier, seed):
     return out
 
 
-def specialise(ctx, roots, rank):
-    """resolve min/max chains over variables whose total order is assumed (rank: var uid -> position)"""
+def specialise(ctx, roots, rank, region=None):
+    """resolve min/max chains over variables whose total order is assumed (rank: var uid -> position 0..n-1).  With a region
+    ('pos': all > 0, 'neg': all < 0, 'straddle': min <= 0 <= max) the constant 0 takes part as well: a chain that contains the
+    known extreme element resolves to it (or to 0 when 0 is the extreme in that region)."""
     from symt import api
     from symt import terms as tm
 
-    resolved, mapping = {}, {}
+    nvars = len(rank)
+    mapping = {}
     for t in tm.topo(list(roots)):
-        if t.op == "var" and t.uid in rank:
-            resolved[t.uid] = t
-        elif t.op in ("min", "max") and all(isinstance(a, tm.T) and a.uid in resolved for a in t.args):
-            a, b = (resolved[x.uid] for x in t.args)
-            pick = (a if rank[a.uid] <= rank[b.uid] else b) if t.op == "min" else (a if rank[a.uid] >= rank[b.uid] else b)
-            resolved[t.uid] = pick
+        if t.op not in ("min", "max"):
+            continue
+        ops, stack, ok = {}, [t], True
+        while stack:
+            x = stack.pop()
+            if x.op == t.op and x.dt == t.dt:
+                stack.extend(x.args)
+            elif x.op == "var" and x.uid in rank:
+                ops[x.uid] = x
+            elif x.op == "const" and x.cv == 0 and region is not None:
+                ops["zero"] = x
+            else:
+                ok = False
+                break
+        if not ok or not ops:
+            continue
+        vs = [v for k, v in ops.items() if k != "zero"]
+        zero = ops.get("zero")
+        pick = None
+        if t.op == "min":
+            lowest = min(vs, key=lambda v: rank[v.uid]) if vs else None
+            if zero is None:
+                pick = lowest
+            elif region == "pos":
+                pick = zero
+            elif region == "neg":
+                pick = lowest if lowest is not None and rank[lowest.uid] == 0 else None
+            elif region == "straddle":
+                pick = lowest if lowest is not None and rank[lowest.uid] == 0 else None
+        else:
+            highest = max(vs, key=lambda v: rank[v.uid]) if vs else None
+            if zero is None:
+                pick = highest
+            elif region == "neg":
+                pick = zero
+            elif region in ("pos", "straddle"):
+                pick = highest if highest is not None and rank[highest.uid] == nvars - 1 else None
+        if pick is not None:
             mapping[t.uid] = pick
     return api.subst(ctx, list(roots), mapping)
 
@@ -102,26 +137,33 @@ def run_case(case, res):
             return
         D2 = api.subst(ctx, list(D.reshape(-1)), mp)
         rank = {W[0, perm[k]].uid: k for k in range(3)}
-        D3 = specialise(ctx, D2, rank)
-        (SC3,) = specialise(ctx, [SC], rank)
-        # scale lemma
-        r = rerr.Rerr(ctx)
-        wr = [r.tr(W[0, k]) for k in range(3)]
-        lo_, hi_ = wr[perm[0]], wr[perm[2]]
-        order = [wr[perm[0]] <= wr[perm[1]], wr[perm[1]] <= wr[perm[2]]]
-        sr = r.tr(SC3)
-        ex = (hi_ - lo_) / n
-        lem_ok = True
-        for gi, g in enumerate((sr - ex, ex - sr)):
-            v, secs, _ = api.solve(r.cons + order + [g > rv(3 * u) * ex + rv(2 * eta)], 60)
-            res.query("scale-lemma", "RERR", v, secs, sub=f"side{gi}")
-            lem_ok = lem_ok and v == "unsat"
-        if not lem_ok:
-            res.candidate("half-step", "RERR", enc(w, 0, None), note="scale lemma failed; seed as witness")
-            return
-        D4, cmap, _ = api.cut(ctx, D3, [SC3], "scale")
-        svar = cmap[SC3.uid]
         for region in ("straddle", "pos", "neg"):
+            D3 = specialise(ctx, D2, rank, region)
+            (SC3,) = specialise(ctx, [SC], rank, region)
+            # scale lemma: the optimizer's scale is within 3u of range/(2^bits-1) where the range is either the hull of the group and
+            # zero or the group's own min..max (both satisfy the property; the one that is proved becomes the cut assumption)
+            r = rerr.Rerr(ctx)
+            wr = [r.tr(W[0, k]) for k in range(3)]
+            lo_, hi_ = wr[perm[0]], wr[perm[2]]
+            order = [wr[perm[0]] <= wr[perm[1]], wr[perm[1]] <= wr[perm[2]]]
+            regc = {"straddle": [lo_ <= 0, hi_ >= 0], "pos": [lo_ > 0], "neg": [hi_ < 0]}[region]
+            hull = {"straddle": hi_ - lo_, "pos": hi_, "neg": -lo_}[region]
+            sr = r.tr(SC3)
+            exact = None
+            for cand_name, cand in (("hull-with-zero", hull / n), ("min-max", (hi_ - lo_) / n)):
+                good = True
+                for gi, g in enumerate((sr - cand, cand - sr)):
+                    v, secs, _ = api.solve(r.cons + order + regc + [g > rv(3 * u) * cand + rv(2 * eta)], 60)
+                    res.query("scale-lemma", "RERR", v, secs, sub=f"{region} {cand_name} side{gi}")
+                    good = good and v == "unsat"
+                if good:
+                    exact = cand_name
+                    break
+            if exact is None:
+                res.candidate("half-step", "RERR", enc(w, 0, None), note="scale lemma failed for both admissible ranges; seed as witness")
+                continue
+            D4, cmap, _ = api.cut(ctx, D3, [SC3], "scale")
+            svar = cmap[SC3.uid]
             for i in range(3):
                 r = rerr.Rerr(ctx)
                 wr = [r.tr(W[0, k]) for k in range(3)]
@@ -138,7 +180,7 @@ def run_case(case, res):
                 step = (hi - lo) / n
                 # obligations = complement of the known-finding regions (zero-point / code-zero-point wrap, zero scale)
                 obl = [o for k, o, t in r.oblig]
-                ex = (hi_ - lo_) / n
+                ex = (hi - lo) / n if exact == "hull-with-zero" else (hi_ - lo_) / n
                 slem = [sr - ex <= rv(3 * u) * ex + rv(2 * eta), ex - sr <= rv(3 * u) * ex + rv(2 * eta), sr > 0]
                 for sgn in (1, -1):
                     if (region == "pos" and sgn < 0) or (region == "neg" and sgn > 0):
@@ -183,7 +225,7 @@ def run_case(case, res):
             for code in (0, n):
                 ends.append(z3.fpMul(z3.RNE(), sz_, z3.fpSignedToFP(z3.RNE(), z3.BitVecVal(code, 8) - zz_, sz_.sort())))
         R_end = z3.Or(*[z3.Not(fin(e)) for e in ends])
-        regions = {"grid-endpoint-overflow": z3.And(z3.Not(R_zp), z3.Not(R_czp), z3.Not(R_range), z3.Not(R_const), R_end), "zeropoint-overflow": R_zp, "constant-group": R_const, "code-minus-zeropoint-overflow": z3.And(z3.Not(R_zp), R_czp), "range-overflow": R_range}
+        regions = {"grid-endpoint-overflow": z3.And(z3.Not(R_zp), z3.Not(R_czp), z3.Not(R_range), z3.Not(R_const), R_end), "zeropoint-overflow": R_zp, "zero-scale-underflow": R_const, "code-minus-zeropoint-overflow": z3.And(z3.Not(R_zp), R_czp), "range-overflow": R_range}
         outside = [z3.Not(R) for R in (R_zp, R_const, R_czp, R_range, R_end)]
         bad_out = z3.Or(*[z3.Not(fin(b.tr(d))) for d in D.reshape(-1)])
         # int8 subtraction code - zeropoint must not wrap
